@@ -12,6 +12,10 @@ import (
 type Iter struct {
 	err  error
 	msgC chan xml.TokenReader
+	// done is closed when the query is no longer tracked (the final result
+	// arrived, the context ended, or Close was called); msgC itself is never
+	// closed because the session may be about to send on it.
+	done chan struct{}
 	cur  xml.TokenReader
 	h    *Handler
 	id   string
@@ -20,9 +24,13 @@ type Iter struct {
 
 // Next advances the iterator
 func (i *Iter) Next() bool {
-	var ok bool
-	i.cur, ok = <-i.msgC
-	return ok
+	select {
+	case i.cur = <-i.msgC:
+		return true
+	case <-i.done:
+		i.cur = nil
+		return false
+	}
 }
 
 // Current returns the current message stream read from the iterator.
@@ -45,6 +53,10 @@ func (i *Iter) Result() Result {
 // Future messages will still be received but will be handled by the fallback
 // handler instead.
 func (i *Iter) Close() error {
+	if i.h == nil {
+		// The query was never tracked (see Err).
+		return nil
+	}
 	i.h.remove(i.id)
 	return nil
 }
